@@ -82,6 +82,7 @@ def streams(tier, rng):
     L = 4 if tier == 'quick' else 5
     yield {'name': 'exhaustive-lines<=%d-LF' % L, 'op': 'C05', 'cases': gen822.exhaustive(L), 'exhaustive': True}
     yield {'name': 'exhaustive-lines<=%d-terminators' % (L - 1), 'op': 'C05', 'cases': gen822.exhaustive(L - 1, rng)}
+    yield {'name': 'edge-characters', 'op': 'C05', 'cases': gen822.edge_sweep(2 if tier == 'quick' else 3), 'exhaustive': True}
     n = 5000 if tier == 'quick' else 80000
     yield {'name': 'random', 'op': 'C05', 'cases': (gen822.random_text(rng, 14) for _ in range(n))}
     yield {'name': 'stored-data-files', 'op': 'C05', 'cases': data_files()}
